@@ -9,7 +9,7 @@ corresponding column of M.  Superposition, constants, length, zero phase (2049-s
 the tone ladder (4096-sample record) and the retH clause are separate parts.
 
 Parts
-  operator : case = (cfg, N, kind, seed)        N in {28, 64, 257}
+  operator : case = (cfg, N, kind, seed)        N in {17 (orders<=4), 28, 64, 257}
   zerophase: case = (cfg, kind)                 N = 2049
   tone     : case = (cfg, kind)                 N = 4096
   retH     : case = (cfg, N, container)         N in {28, 64, 257, 4096}   (LPF only)
@@ -35,7 +35,8 @@ NONTRIVIAL = ('a case is non-trivial when the operator of its configuration diff
 
 CUTS = (0.01, 0.05, 0.1, 0.25, 0.45)
 RATES = {16e9: dict(sps=16, R=1e9), 160e9: dict(sps=16, R=10e9)}
-N_OP = (28, 64, 257)          # 28 = shortest record every order 1..8 accepts (sosfiltfilt padlen of order 8 is 27)
+N_OP = (28, 64, 257)          # 28 = shortest record every order 1..8 accepts (sosfiltfilt padlen is 3*(order+1): 27 for order 8)
+N_SHORT = 17                  # "longer than the 16-sample edge padding": accepted by orders 1..4 only (scipy refuses it for orders >= 5)
 N_SYM = 2049
 N_TONE = 4096
 N_RETH = (28, 64, 257, 4096)
@@ -160,10 +161,14 @@ LPF_KINDS = ('nd-f64', 'nd-int', 'nd-scaled', 'nd-retH', 'es', 'es+noise', 'es-n
 BPF_KINDS = ('os1', 'os1-f64', 'os1-scaled', 'os1+noise', 'os1-noise-only', 'os2', 'os2+noise', 'os2-const+noise', 'os2-npol')
 
 
+def n_op(order):
+    return ((N_SHORT,) if order <= 4 else ()) + N_OP
+
+
 def perm(N, k):
     """three fixed permutations of the basis index, so that signal, noise and both rows carry DIFFERENT basis
     vectors in the same call and each of them still runs through the complete basis"""
-    return (5 * k + 3) % N, (3 * k + 1) % N, N - 1 - k      # gcd(5,N)=gcd(3,N)=1 for N in {28,64,257}
+    return (5 * k + 3) % N, (3 * k + 1) % N, N - 1 - k      # gcd(5,N)=gcd(3,N)=1 for N in {17,28,64,257}
 
 
 def basis_input(dev, kind, N, k):
@@ -742,7 +747,7 @@ def run(ctx):
     orders = (1, 4, 8) if ctx.quick else tuple(range(1, 9))
     ctx.rule(f'C11: bounded-exhaustive basis enumeration. configurations = device {{LPF,BPF}} x order {list(orders)} x cutoff '
              f'{list(CUTS)}*fs x fs {{16e9,160e9}} x fs-source {{gv.fs; LPF(fs=...) with gv at the other rate}}; for every '
-             f'configuration and every N in {list(N_OP)} the response to EVERY unit impulse e_k is taken (complete operator '
+             f'configuration and every N in {[N_SHORT] + list(N_OP)} (17 only for orders <= 4) the response to EVERY unit impulse e_k is taken (complete operator '
              f'matrix M) through the plain entry point and again through every container kind (9 per device: int/scaled/retH '
              f'ndarray, electrical/optical container, noise present/absent/alone, complex dtype, 1-/2-pol, n_pol broadcast) with '
              f'permuted basis vectors in signal, noise and the two rows; every response must be the matching column of M. '
@@ -758,7 +763,7 @@ def run(ctx):
         cfgs = configs(dev, orders)
         ctx.space(f'{dev}.configurations', len(cfgs))
         kinds = op_kinds(dev)
-        cases = [(cfg, N, kind, ctx.seed) for cfg in cfgs for N in N_OP for kind in kinds]
+        cases = [(cfg, N, kind, ctx.seed) for cfg in cfgs for N in n_op(cfg[1]) for kind in kinds]
         p = ctx.pmap(f'{dev}.operator', case_operator, cases, horizon=120, chunk=len(kinds))
         measured[f'{dev}.operator'] = _maxes(p)
         zk = ('nd', 'es+noise') if dev == 'LPF' else ('os1', 'os2+noise')
